@@ -32,12 +32,6 @@ impl Fq {
     pub fn non_arkworks_sqrt_ratio_zeta(num: &Self, den: &Self) -> (r: (bool, Self))
         ensures r.0 == isqrt_flag(num.val(), den.val()), r.1.val() == isqrt_root(num.val(), den.val())
     { unimplemented!() }
-    // src/fields/fq.rs (unit fieldx_fq): accepts exactly the canonical encodings of integers below q
-    #[verifier::external_body]
-    pub fn from_bytes_checked(bytes: &[u8; 32]) -> (r: Result<Fq, EncodingError>)
-        ensures match r { Ok(v) => bytes_val(bytes@) < fq_p() && v.val() == bytes_val(bytes@),
-                          Err(e) => bytes_val(bytes@) >= fq_p() && e == EncodingError::InvalidEncoding }
-    { unimplemented!() }
 }
 pub broadcast proof fn mrepr_m_of(q: P4)
     requires p4_wf(q)
@@ -77,6 +71,9 @@ def element_unit():
                       proved_in="wrap64_fq", extra_assoc="    open spec fn cs_wf(&self) -> bool { true }"))
     from .fieldc import wrapper_contracts
     items.append(Item("src/fields/fr/u64/wrapper.rs", "impl Fr", [wrapper_contracts("fr")["to_le_limbs"]], mode="stub", proved_in="wrap64_fr"))
+    items.append(Item("src/fields/fq.rs", "impl Fq", [Fn("from_bytes_checked",
+        ensures="""match r { Ok(v) => bytes_val(bytes@) < fq_p() && v.val() == bytes_val(bytes@),
+                          Err(e) => bytes_val(bytes@) >= fq_p() && e == EncodingError::InvalidEncoding }""")], mode="stub", proved_in="fieldx_fq"))
     I(Fn("new_checked", ensures="""r == (if fadd(fsq(y.val()), fmul(A_(), fsq(x.val()))) == fadd(fsq(z.val()), fmul(D_(), fsq(t.val())))
                 { Some(Element { x, y, z, t }) } else { None })""", props=("C06",), preamble=BUM))
     I(Fn("IDENTITY", as_const=True, ensures="mrepr(Element::IDENTITY) == id4()", props=("C06", "C12")))
